@@ -352,10 +352,11 @@ class Rewriter(ast.NodeTransformer):
             ast.Expr(value=api("loop_entry", ast.Constant(K), itn, loc)),
             ast.If(test=api("loop_fork", ast.Constant(K)), body=pres, orelse=[havoc("exit")]),
         ]
+        elem_mut = any(n in tnames for n in _names_mutated(node.body))
         new = [
             ast.Assign(targets=[ast.Name(id=it, ctx=ast.Store())],
                        value=api("iter_enter", ast.Constant(K), node.iter,
-                                 ast.Constant(".".join(self.func_stack)))),
+                                 ast.Constant(".".join(self.func_stack)), ast.Constant(elem_mut))),
             ast.If(test=ast.Attribute(value=itn, attr="concrete", ctx=ast.Load()), body=[conc], orelse=cut),
         ]
         for n in new:
